@@ -1038,12 +1038,42 @@ def _cl_check(r, m, classes):
         pairs = set()
         calls = [n for n in walk_no_nested(con) if isinstance(n, ast.Call) and isinstance(n.func, ast.Attribute)
                  and n.func.attr == 'add_constraints' and norm(n.func.value) == me]
+        def top_stmt(n):
+            while n is not None and not any(n is st for st in con.body):
+                n = getattr(n, '_parent', None)
+            return n
+
+        def expand(a, call, depth=0):
+            """the constraint expressions an argument of add_constraints stands for: the expression itself, a
+            single-assignment local of construct bound before the call, a list / tuple of those, a starred one"""
+            if depth > 6:
+                raise AnalysisError(f"{cname}: constraint outside the model: {norm(a)}")
+            if isinstance(a, ast.Starred):
+                return expand(a.value, call, depth + 1)
+            if isinstance(a, (ast.List, ast.Tuple)):
+                return [x for e in a.elts for x in expand(e, call, depth + 1)]
+            if isinstance(a, ast.Name):
+                stores = [n for n in walk_no_nested(con) if isinstance(n, ast.Name) and n.id == a.id and isinstance(n.ctx, (ast.Store, ast.Del))]
+                mutated = any(isinstance(n, ast.Attribute) and isinstance(n.value, ast.Name) and n.value.id == a.id
+                              and isinstance(getattr(n, '_parent', None), ast.Call) and n._parent.func is n for n in walk_no_nested(con)) or \
+                    any(isinstance(n, ast.AugAssign) and isinstance(n.target, ast.Name) and n.target.id == a.id for n in walk_no_nested(con))
+                defs = [st for st in con.body if isinstance(st, ast.Assign) and len(st.targets) == 1 and stores
+                        and st.targets[0] is stores[0]]
+                cs = top_stmt(call)
+                if len(stores) != 1 or mutated or len(defs) != 1 or cs is None or \
+                        [i for i, st in enumerate(con.body) if st is defs[0]][0] >= [i for i, st in enumerate(con.body) if st is cs][0]:
+                    raise AnalysisError(f"{cname}: constraint `{a.id}` is not a single-assignment local bound before add_constraints")
+                return expand(defs[0].value, call, depth + 1)
+            if isinstance(a, ast.Compare) and len(a.ops) == 1 and isinstance(a.ops[0], (ast.Lt, ast.Gt)):
+                return [a]
+            raise AnalysisError(f"{cname}: constraint outside the model: {norm(a)}")
         for c in calls:
-            for a in c.args:
-                if not (isinstance(a, ast.Compare) and len(a.ops) == 1 and isinstance(a.ops[0], (ast.Lt, ast.Gt))):
-                    raise AnalysisError(f"{cname}: constraint outside the model: {norm(a)}")
-                x, y = _cl_term(a.left, me, pulse_name), _cl_term(a.comparators[0], me, pulse_name)
-                pairs.add((x, y) if isinstance(a.ops[0], ast.Lt) else (y, x))
+            if c.keywords:
+                raise AnalysisError(f"{cname}: add_constraints with keyword arguments")
+            for arg in c.args:
+                for a in expand(arg, c):
+                    x, y = _cl_term(a.left, me, pulse_name), _cl_term(a.comparators[0], me, pulse_name)
+                    pairs.add((x, y) if isinstance(a.ops[0], ast.Lt) else (y, x))
         for before, after in sorted(CL_REQUIRED[kind]):
             cons = f"constraint {before} < {after}"
             if (after, before) in pairs:
@@ -2178,6 +2208,8 @@ MUTANTS = [
     _m('cl-pipe-deq-guard-ge', CLQ, "@non_blocking( lambda s: len( s.queue ) > 0 )\n  def deq",
        "@non_blocking( lambda s: len( s.queue ) >= 0 )\n  def deq", 'R-C17-cl', 'first'),
     _m('cl-bypass-constraint-reversed', CLQ, "M( s.enq    ) < M( s.deq     ),", "M( s.enq    ) > M( s.deq     ),", 'R-C17-cl'),
+    _m('cl-constraints-local-list-misses-one', CLQ, "    s.add_constraints(\n      M( s.enq    ) < M( s.peek    ),\n      M( s.enq    ) < M( s.deq     ),\n    )",
+       "    cs = [ M( s.enq ) < M( s.peek ) ]\n    s.add_constraints( *cs )", 'R-C17-cl'),
     _m('cl-pipe-constraint-dropped', CLQ, "M( s.peek   ) < M( s.enq  ),\n      M( s.deq    ) < M( s.enq  )",
        "M( s.peek   ) < M( s.enq  ),", 'R-C17-cl'),
     _m('cl-enq-same-end', CLQ, "s.queue.appendleft( clone_deepcopy( msg ) )", "s.queue.append( clone_deepcopy( msg ) )", 'R-C17-cl', 'first'),
@@ -2283,6 +2315,11 @@ EQUIV = [
              new="        if s.wen:\n          s.tail <<= s.tail + 1 if ( s.tail < num_entries - 1 ) else 0\n\n"
                  "        if s.send_xfer & ~s.mux_sel:\n          s.head <<= s.head + 1 if ( s.head < num_entries -1 ) else 0\n\n"
                  "        if s.recv_xfer & ~s.send_xfer:\n          s.count <<= s.count + 1\n        if ~s.recv_xfer", count=1)]),
+    _m('cl-constraints-bound-to-locals', CLQ, "    s.add_constraints(\n      M( s.peek   ) < M( s.enq  ),\n      M( s.deq    ) < M( s.enq  )\n    )",
+       "    peek_before_enq = M( s.peek ) < M( s.enq )\n    deq_before_enq  = M( s.deq  ) < M( s.enq )\n\n"
+       "    s.add_constraints( peek_before_enq, deq_before_enq )"),
+    _m('cl-constraints-starred-list', CLQ, "    s.add_constraints(\n      M( s.enq    ) < M( s.peek    ),\n      M( s.enq    ) < M( s.deq     ),\n    )",
+       "    cs = [ M( s.enq ) < M( s.peek ), M( s.enq ) < M( s.deq ) ]\n    s.add_constraints( *cs )"),
     _m('cl-guard-ge-1', CLQ, "@non_blocking( lambda s: len( s.queue ) > 0 )\n  def deq", "@non_blocking( lambda s: len( s.queue ) >= 1 )\n  def deq",
        None, 'first'),
     _m('cl-constraint-as-gt', CLQ, "M( s.deq    ) < M( s.enq  )", "M( s.enq  ) > M( s.deq    )"),
